@@ -782,6 +782,16 @@ func (be BlockExpr) Coq(needs_paren bool) string {
 	return addParens(needs_paren, pp.Build())
 }
 
+// ParenExpr prints X in parentheses whatever the context, which delimits the
+// scope of the let-bindings X is printed with.
+type ParenExpr struct {
+	X Expr
+}
+
+func (e ParenExpr) Coq(needs_paren bool) string {
+	return "(" + indent(1, e.X.Coq(false)) + ")"
+}
+
 type DerefExpr struct {
 	X  Expr
 	Ty Expr
